@@ -1,5 +1,5 @@
 CFG = dict(
-    gen=['MapRanges'],
+    gen=['MapRanges', 'ExportTables', 'ConcShape', 'DbTables', 'ImportRules'],
     prop_file='Properties/C19.v',
     coq_extra=['Determ/Run.v'],
     harness='c19',
@@ -17,7 +17,7 @@ CFG = dict(
     ],
 )
 TEXT = dict(
-    level='Theorems in Coq over a model of Go map iteration (an oracle returning any permutation): a sorted permutation is unique (byte-wise string order proved total, transitive, antisymmetric), so the collect-sort-emit loop shape gives the same output under any two oracles, for every filter and payload; map-to-map loops give the same destination map provided no two entries write one key (and the proviso is necessary: refuted otherwise); emission in loop order is refuted for every map with two keys; sorting by a non-injective key is refuted. Every `range` over a map in the generator packages of the CURRENT source is classified by a translator on every run (Gen.MapRanges, 103 loops; 127 before the repairs) and the obligations state that the loops that are not order-independent by shape are exactly 28 reviewed ones (compared as multisets of function+class), that the 24 functions the property relies on keep their collect-then-sort loops, and that no code takes an unordered slice out of a string set. Tied to the code by (a) comparing inside Coq the order observed in real output at 7 sites with the order the model computes from the class in the table, and (b) exploration in support: 39 generator/option sets run 6x (quick) / 30x (thorough) in-process (arr.ai-backed ones 2x / 12x, spanner export and OpenAPI3 import thorough only) and the CLI binary as subprocesses on generated models with 2-9 entries per map, outputs compared byte for byte.',
+    level='Theorems in Coq over a model of Go map iteration (an oracle returning any permutation): a sorted permutation is unique (byte-wise string order proved total, transitive, antisymmetric), so the collect-sort-emit loop shape gives the same output under any two oracles, for every filter and payload; map-to-map loops give the same destination map provided no two entries write one key (and the proviso is necessary: refuted otherwise); emission in loop order is refuted for every map with two keys; sorting by a non-injective key is refuted. Every `range` over a map in the generator packages of the CURRENT source is classified by a translator on every run (Gen.MapRanges, 103 loops; 127 before the repairs) and the obligations state that the loops that are not order-independent by shape are exactly 28 reviewed ones (compared as multisets of function+class), that the 24 functions the property relies on keep their collect-then-sort loops, and that no code takes an unordered slice out of a string set. Per generator, from the models of the sub-tasks that own them (imported, not copied): OpenAPI3 export, module post-processing, relational model (relmod.Normalize, through a re-reading wrapper) give equal results under any two permuting oracles, the database depth pass gives equal depths (partial), import collection is schedule-independent; Ints / Seq / DataModel models have no oracle parameter and are covered by classification + repetition only. Tied to the code by (a) comparing inside Coq the order observed in real output at 7 sites with the order the model computes from the class in the table, and (b) exploration in support: 39 generator/option sets run 6x (quick) / 30x (thorough) in-process (arr.ai-backed ones 2x / 12x, spanner export and OpenAPI3 import thorough only) and the CLI binary as subprocesses on generated models with 2-9 entries per map, outputs compared byte for byte; plus a second generation from the same parsed module in one process (state leaking into the model) and two-file models with equal line numbers (sort-key ties).',
     note='Trusted: Coq kernel + vm_compute; the MapRanges translator and its effect heuristics (expression-position calls assumed pure); the reviewed list; the harness. The proofs are about loop shapes, not about whole generators: a generator is covered when all its map ranges are classified order-independent or reviewed. Non-determinism that does not come from a Go map range (arr.ai transform scripts behind `export -f proto|spanner` and `import` of OpenAPI3, goroutines) is covered by repetition only. Error paths (which error is returned first) are outside the model.',
     technique='Coq proof over loop-shape model + regenerated map-range classification + repeated-run byte comparison',
 )
